@@ -25,15 +25,15 @@ type numSink struct {
 	nCalls           int
 }
 
-func (r *numSink) Reset(ivg.ViewBox, [64]color.RGBA)          {}
-func (r *numSink) SetCSel(uint8)                               {}
-func (r *numSink) SetNSel(uint8)                               {}
-func (r *numSink) SetLOD(a, b float32)                         { r.lod0, r.lod1 = a, b; r.nCalls++ }
-func (r *numSink) SetNReg(adj uint8, incr bool, f float32)     { r.nreg = f; r.nCalls++ }
-func (r *numSink) SetCReg(adj uint8, incr bool, c ivg.Color)   { r.col = c; r.nCalls++ }
-func (r *numSink) StartPath(adj uint8, x, y float32)           { r.sx, r.sy = x, y; r.nCalls++ }
-func (r *numSink) AbsLineTo(x, y float32)                      { r.lx, r.ly = x, y; r.nCalls++ }
-func (r *numSink) ClosePathEndPath()                           { r.nCalls++ }
+func (r *numSink) Reset(ivg.ViewBox, [64]color.RGBA)         {}
+func (r *numSink) SetCSel(uint8)                             {}
+func (r *numSink) SetNSel(uint8)                             {}
+func (r *numSink) SetLOD(a, b float32)                       { r.lod0, r.lod1 = a, b; r.nCalls++ }
+func (r *numSink) SetNReg(adj uint8, incr bool, f float32)   { r.nreg = f; r.nCalls++ }
+func (r *numSink) SetCReg(adj uint8, incr bool, c ivg.Color) { r.col = c; r.nCalls++ }
+func (r *numSink) StartPath(adj uint8, x, y float32)         { r.sx, r.sy = x, y; r.nCalls++ }
+func (r *numSink) AbsLineTo(x, y float32)                    { r.lx, r.ly = x, y; r.nCalls++ }
+func (r *numSink) ClosePathEndPath()                         { r.nCalls++ }
 
 // exhaustiveNumbers runs the float32 values of this shard's slice of the 2^32 bit patterns: each value as
 // both LOD bounds, as a number register, and as the coordinates of a low-resolution and of a
@@ -126,7 +126,7 @@ func (r *exhSink) put(f ...float32) {
 		r.n++
 	}
 }
-func (r *exhSink) Reset(ivg.ViewBox, [64]color.RGBA)      {}
+func (r *exhSink) Reset(ivg.ViewBox, [64]color.RGBA)       {}
 func (r *exhSink) SetLOD(a, b float32)                     { r.put(a, b) }
 func (r *exhSink) SetNReg(adj uint8, incr bool, f float32) { r.put(f) }
 func (r *exhSink) StartPath(adj uint8, x, y float32)       { r.put(x, y) }
